@@ -234,6 +234,17 @@ where
         b.insert_axis(1);
     }
 
+    // Remove the axes that were added to vector inputs from the output.
+    let remove_vec_axes = |mut output: Tensor<OutT>| {
+        if a_is_vec {
+            output.remove_axis(output.ndim() - 2);
+        }
+        if b_is_vec {
+            output.remove_axis(output.ndim() - 1);
+        }
+        output
+    };
+
     let a_rows = a.size(a.ndim() - 2);
     let a_cols = a.size(a.ndim() - 1);
 
@@ -293,13 +304,13 @@ where
             b_quant,
         )?;
         output.reshape(out_shape);
-        return Ok(output);
+        return Ok(remove_vec_axes(output));
     }
 
     // Early exit if the output is empty.
     if out_shape.iter().product::<usize>() == 0 {
         // Don't need to use the pool here since the buffer has zero size.
-        return Ok(Tensor::zeros(out_shape));
+        return Ok(remove_vec_axes(Tensor::zeros(out_shape)));
     }
 
     let a_broadcast_shape = [out_prefix.as_slice(), &[a_rows, a_cols]].concat();
@@ -373,15 +384,7 @@ where
         .unwrap()
     });
 
-    let mut output = Tensor::from_data(out_shape, out_data);
-    if a_is_vec {
-        output.remove_axis(output.ndim() - 2);
-    }
-    if b_is_vec {
-        output.remove_axis(output.ndim() - 1);
-    }
-
-    Ok(output)
+    Ok(remove_vec_axes(Tensor::from_data(out_shape, out_data)))
 }
 
 #[derive(Clone, Debug)]
